@@ -115,7 +115,7 @@ def run_case(case):
         ks = probes if small else prng.sample(probes, min(len(probes), 10))
         check(runner, tg, trie, model, ks, False)
 
-    r = hexlib.HexRunner(res, case["prune"], observe, raw_tie=True)
+    r = hexlib.HexRunner(res, case["prune"], observe, raw_tie=True, reopen=True)
     r.run(case["ops"])
     check(r, "0", r.trie, r.model, probes, True)
     r.finish_raw(list(probes)[:12])
